@@ -86,7 +86,9 @@ class SegmMachine(Machine):
                'npixels': rng.pick([1, 3, 5]),
                'connectivity': rng.pick([4, 8])}
         if cfg['init'] == 'deblend':
-            out.update({'nlevels': rng.pick([4, 16, 32]),
+            out.update({'gaps': [rng.randint(1, 4) for _ in range(12)]
+                        if rng.chance(0.5) else None,
+                        'nlevels': rng.pick([4, 16, 32]),
                         'contrast': rng.pick([0.0, 1e-3, 0.05]),
                         'mode': rng.pick(['exponential', 'linear', 'sinh']),
                         'relabel': rng.chance(0.5)})
@@ -122,6 +124,16 @@ class SegmMachine(Machine):
                 obj = SegmentationImage(arr)
                 stats.probe('init_fallback')
             elif 'nlevels' in sc:
+                if sc.get('gaps'):
+                    # input image with non-consecutive labels (monotone map)
+                    arr = obj.data
+                    labs = _labels(arr)
+                    steps = (sc['gaps'] * (len(labs) // len(sc['gaps']) + 1)
+                             )[:len(labs)]
+                    m = np.zeros(int(arr.max()) + 1, dtype=arr.dtype)
+                    m[labs] = np.cumsum(steps)
+                    obj = SegmentationImage(m[arr])
+                    stats.probe('deblend_input_with_label_gaps')
                 obj2 = call(deblend_sources, data, obj, sc['npixels'],
                             nlevels=sc['nlevels'], contrast=sc['contrast'],
                             mode=sc['mode'],
